@@ -179,6 +179,7 @@ def calibration(item):
     # samples at ITS rate, and the exact failure probability is that of
     # (code, noise at the simulation's rate, this decoder)
     dec_rate = dkw.pop('_decoder_rate', None)
+    via_function = dkw.pop('_via_function', False)
     code = codes.build(cname, tuple(size))
     n = code.n
     vs = codes.deformation_variants(cname)
@@ -227,20 +228,37 @@ def calibration(item):
         succ.append(int(ok))
     # the real simulation on the stratified grid, in arbitrary chunks
     dec = DECODERS[dec_name](code, em, p if dec_rate is None else dec_rate, **dkw)
-    sim = DirectSimulation(code, em, dec, p, rng=Stratified(n, den), verbose=False)
     total = den ** n
-    rng = np.random.default_rng(chunk_seed)
-    done = 0
-    while done < total:
-        k = int(min(total - done, rng.integers(1, 700)))
-        sim.run(k)
-        done += k
-    res = sim.get_results()
+    if via_function:
+        # the free function calculate_logical_error_rate (what SplittingSimulation
+        # uses for its first level): it draws its own generator per trial, so the
+        # stratified grid is handed out through np.random.default_rng
+        from panqec.simulation import calculate_logical_error_rate
+        grid = Stratified(n, den)
+        real_default_rng = np.random.default_rng
+        np.random.default_rng = lambda *a, **k: grid
+        try:
+            rate_ = calculate_logical_error_rate(code, em, dec, p, total)
+        finally:
+            np.random.default_rng = real_default_rng
+        res = {'n_fail': int(round(float(rate_) * total)), 'n_runs': total}
+        if abs(float(rate_) * total - res['n_fail']) > 1e-6:
+            res['n_fail'] = -1
+    else:
+        sim = DirectSimulation(code, em, dec, p, rng=Stratified(n, den), verbose=False)
+        rng = np.random.default_rng(chunk_seed)
+        done = 0
+        while done < total:
+            k = int(min(total - done, rng.integers(1, 700)))
+            sim.run(k)
+            done += k
+        res = sim.get_results()
     return {'kind': 'calibration', 'n': int(n), 'chan': list(chan), 'D': Dt, 'succ': succ,
             'n_fail': int(res['n_fail']), 'n_runs': int(res['n_runs']),
             'events': [], 'code': {'n': 0, 'k': 0, 'stabs': [], 'lx': [], 'lz': []},
             '_label': f'{dec_name}@{cname}{tuple(size)} chan={chan} noise_def={nd}'
-                      + (f' decoder built for p={dec_rate}' if dec_rate is not None else ''),
+                      + (f' decoder built for p={dec_rate}' if dec_rate is not None else '')
+                      + (' via calculate_logical_error_rate' if via_function else ''),
             '_cost': 4 ** n * n}
 
 
@@ -363,6 +381,14 @@ def run(tier):
     for cn, size in (('Planar2DCode', (3, 1)), ('Planar2DCode', (1, 3))):
         for chan in ((1, 7, 0, 0), (2, 0, 0, 6), (1, 3, 2, 2)):
             cal.append(('MatchingDecoder', cn, size, {}, chan, False, common.seed() + 99))
+    # decoders that may leave the code space (matching restricted to one error type),
+    # through DirectSimulation and through the free function
+    for chan in ((4, 0, 1, 3), (3, 1, 2, 2)):
+        for via in (False, True):
+            cal.append(('MatchingDecoder', 'RotatedPlanar2DCode', (2, 2),
+                        {'error_type': 'X', '_via_function': via}, chan, False, common.seed() + 77))
+    cal.append(('BeliefPropagationOSDDecoder', 'RotatedPlanar2DCode', (2, 2),
+                {'max_bp_iter': 8, 'osd_order': 0, '_via_function': True}, (5, 1, 1, 1), False, common.seed() + 78))
     crecs = common.pmap(calibration, cal, procs=15)
     recs += common.split_raised('C11', v, crecs)
     for j, r in enumerate(recs):
